@@ -723,6 +723,16 @@ def rule_greedy_disjoint(ctx):
             for c_ in candidates(e_e0, bi, fn=f2):
                 check_value(f2, bi, t, s_e, strip_casts(c_), depth)
             return
+        # (start, end) carried in a private enum / struct assigned on several paths: judged per definition, pairwise
+        from common import alternatives_tagged, tags_agree
+        sa, ea = alternatives_tagged(f2, s_e), alternatives_tagged(f2, e_e0)
+        if len(sa) > 1 or len(ea) > 1 or repr(sa[0][1]) != repr(s_e) or repr(ea[0][1]) != repr(e_e0):
+            from common import resolve_under
+            pairs = [(resolve_under(f2, s1, tuple(ts) + tuple(te)), resolve_under(f2, e1, tuple(ts) + tuple(te))) for ts, s1 in sa for te, e1 in ea if tags_agree(ts, te) and tags_agree(te, ts)]
+            if pairs:
+                for s1, e1 in pairs:
+                    check_value(f2, bi, t, strip_casts(s1), strip_casts(e1), depth)
+                return
         check_value(f2, bi, t, s_e, e_e0, depth)
 
     def check_value(f2, bi, t, s_e, e_e, depth):
